@@ -57,8 +57,11 @@ def closed_groups(run):
             else:
                 per_call.setdefault(w, []).append(item)
     groups = [("final stop", final)]
+    run.group_call = {}
     for k, items in sorted(per_call.items()):
-        groups.append(("remove() call #%d by %s" % (k, windows[k][2]["by"]), items))
+        what = "remove() call #%d by %s" % (k, windows[k][2]["by"])
+        run.group_call[what] = windows[k][2]
+        groups.append((what, items))
     return groups
 
 
@@ -99,6 +102,9 @@ def judge(prog, run, r):
         for it in items:
             h = host_at(it[0], it[1])
             members = run.doers if h == "doist" else run.kids.get(h, [])
+            call = getattr(run, "group_call", {}).get(what)
+            if call is not None and call["host"] == h:
+                members = call["before"]          # the doers the scheduler had when remove() was called on it
             if it[0] not in members and (what == "final stop" or h != "doist"):
                 # a doer that removed itself keeps running but is no longer one of the scheduler's
                 # doers: its place in the closing order is not defined by the statement.  This also holds
@@ -134,7 +140,7 @@ def judge(prog, run, r):
 
 def run_case(prog):
     r = Result()
-    run = sched.run_program(prog, "do", collect="auto")
+    run = sched.run_program(prog, prog.get("mode") or "do", collect="auto")
     groups = judge(prog, run, r)
     final = groups[0][1] if groups else []
     names = {n for n, _e, _x in final}
@@ -152,6 +158,7 @@ def run_case(prog):
         r.labels.append("remove-groups")
     if any(len(items) >= 2 for _w, items in groups[1:]):
         r.labels.append("remove-group>=2")
+    r.labels.append("mode:" + (prog.get("mode") or "do"))
     return r
 
 
@@ -159,4 +166,6 @@ def searches(tier):
     q = tier == "quick"
     full, nomem = C01._strategies()
     return [("faults", nomem, 600 if q else 8000),
-            ("faults+membership", full, 600 if q else 8000)]
+            ("faults+membership", full, 600 if q else 8000),
+            ("group-membership", C01._group_strategy(), 600 if q else 8000),
+            ("same-cycle-calls", schedgen.same_cycle_program(), 400 if q else 6000)]
